@@ -123,6 +123,17 @@ class DownloadOutputManager:
             },
         )
 
+    def get_io_write_tasks(self, fileobj, data, offset):
+        """Get the IO write tasks needed to write the requested set of data
+
+        This is used when the caller runs the writes itself instead of
+        submitting them to the IO executor. An output manager may return
+        no task or several tasks if it defers or deduplicates writes.
+
+        :returns: A list of IO tasks to run in order
+        """
+        return [self.get_io_write_task(fileobj, data, offset)]
+
     def get_final_io_task(self):
         """Get the final io task to complete the download
 
@@ -239,6 +250,17 @@ class DownloadNonSeekableOutputManager(DownloadOutputManager):
                     fileobj,
                 )
                 super().queue_file_io_task(fileobj, data, offset)
+
+    def get_io_write_tasks(self, fileobj, data, offset):
+        # The stream cannot seek, so data that gets delivered again after
+        # a retried request must not be written a second time. Go through
+        # the defer queue, which only releases data that was not written.
+        with self._io_submit_lock:
+            writes = self._defer_queue.request_writes(offset, data)
+        return [
+            self.get_io_write_task(fileobj, write['data'], write['offset'])
+            for write in writes
+        ]
 
     def get_io_write_task(self, fileobj, data, offset):
         return IOStreamingWriteTask(
@@ -625,8 +647,11 @@ class ImmediatelyWriteIOGetObjectTask(GetObjectTask):
     """
 
     def _handle_io(self, download_output_manager, fileobj, chunk, index):
-        task = download_output_manager.get_io_write_task(fileobj, chunk, index)
-        task()
+        tasks = download_output_manager.get_io_write_tasks(
+            fileobj, chunk, index
+        )
+        for task in tasks:
+            task()
 
 
 class IOWriteTask(Task):
